@@ -216,6 +216,14 @@ func (vc *VC) Solve(o *Obl, dir string, quickSec, slowSec int, cross bool) {
 // solveSplit: the goal split into its conjuncts (under the quantifiers and guards), each discharged on its own.
 func (vc *VC) solveSplit(o *Obl, dir string, quickSec, slowSec int) bool {
 	parts := splitGoal(o.Goal)
+	if !o.part {
+		if paths := vc.pathSplit(o); len(paths) > 1 {
+			parts = nil
+			for _, pg := range paths {
+				parts = append(parts, splitGoal(pg)...)
+			}
+		}
+	}
 	if len(parts) <= 1 || len(parts) > 24 || o.part {
 		return false
 	}
@@ -277,4 +285,79 @@ func (vc *VC) satScript(ctxLen int, extra *Term) string {
 	}
 	sb.WriteString("(assert " + extra.String() + ")\n(check-sat)\n")
 	return sb.String()
+}
+
+// pathSplit: a goal (=> R G) whose guard R is a reach condition is equivalent to the goals (=> path G) for the paths that
+// make up R: reach conditions are defined as (or r1 ... rn) at join blocks and (and r c) on branch edges, and are expanded a
+// few levels up. On each path the if-then-else terms of the merged state resolve by propagation, which matters for
+// existential goals over a state merged from "inserted" and "found" branches.
+func (vc *VC) pathSplit(o *Obl) []*Term {
+	g := o.Goal
+	if g.Op != "=>" || len(g.Args) != 2 || g.Args[0].Op != "" {
+		return nil
+	}
+	defs := map[string][]string{} // atom -> ["or"|"and", args...]
+	for _, c := range vc.cmds[:o.CtxLen] {
+		if !strings.HasPrefix(c, "(assert (= reach.") {
+			continue
+		}
+		body := strings.TrimSuffix(strings.TrimPrefix(c, "(assert (= "), "))")
+		k := strings.Index(body, " (")
+		if k < 0 {
+			continue
+		}
+		name, rhs := body[:k], strings.TrimSuffix(body[k+2:], ")")
+		// arguments are atoms or (not atom)
+		rhs = strings.ReplaceAll(rhs, "(not ", "(not~")
+		f := strings.Fields(rhs)
+		if len(f) < 3 || (f[0] != "or" && f[0] != "and") {
+			continue
+		}
+		ok := true
+		for i, a := range f[1:] {
+			if strings.HasPrefix(a, "(not~") && strings.HasSuffix(a, ")") && !strings.ContainsAny(a[5:len(a)-1], "()") {
+				f[i+1] = "(not " + a[5:]
+				continue
+			}
+			if strings.ContainsAny(a, "()") {
+				ok = false
+			}
+		}
+		if ok {
+			defs[name] = f
+		}
+	}
+	var expand func(atom string, depth int) [][]string
+	expand = func(atom string, depth int) [][]string {
+		d, ok := defs[atom]
+		if !ok || depth == 0 {
+			return [][]string{{atom}}
+		}
+		if d[0] == "or" {
+			var out [][]string
+			for _, a := range d[1:] {
+				out = append(out, expand(a, depth-1)...)
+			}
+			return out
+		}
+		// and: expand the first conjunct (the predecessor's reach), keep the branch conditions
+		var out [][]string
+		for _, pth := range expand(d[1], depth-1) {
+			out = append(out, append(append([]string{}, pth...), d[2:]...))
+		}
+		return out
+	}
+	paths := expand(g.Args[0].Atom, 6)
+	if len(paths) <= 1 || len(paths) > 12 {
+		return nil
+	}
+	var out []*Term
+	for _, pth := range paths {
+		var as []*Term
+		for _, a := range pth {
+			as = append(as, A(a))
+		}
+		out = append(out, App("=>", App("and", as...), g.Args[1]))
+	}
+	return out
 }
